@@ -115,6 +115,29 @@ pub fn run_case(line: &str, dir: &str) -> String {
         "IMG" => run_img(rest, dir),
         "ENC" => run_enc(rest),
         "DEC" => run_dec(rest),
+        "NAME" => {
+            let cfg = raft_log::Config::new("d");
+            let p = cfg.chunk_path(raft_log::ChunkId(pu(rest.trim())));
+            hex(p.rsplit('/').next().unwrap().as_bytes())
+        }
+        "PARSE" => {
+            // through the public load_chunk_ids on a directory holding one file of that name
+            let name = unhex(rest.trim());
+            let _ = std::fs::remove_dir_all(dir);
+            std::fs::create_dir_all(dir).unwrap();
+            match String::from_utf8(name) {
+                Ok(n) if !n.contains('/') && !n.contains('\0') && !n.is_empty() && n != "." && n != ".." => {
+                    std::fs::write(format!("{}/{}", dir, n), b"").unwrap();
+                    let cfg = raft_log::Config::new(dir);
+                    match raft_log::RaftLog::<HT>::load_chunk_ids(&cfg) {
+                        Ok(v) if v.len() == 1 => format!("some {}", v[0].0),
+                        Ok(_) => "none".to_string(),
+                        Err(_) => "err".to_string(),
+                    }
+                }
+                _ => "skip".to_string(),
+            }
+        }
         _ => "badcase".to_string(),
     }
 }
